@@ -407,26 +407,14 @@ def run_matrix() -> list[dict[str, Any]]:
 
 # ------------------------------------------------------------------------- model leg
 
-# cell -> (model, event script for probe C, event script for probe Y); the model must answer the
-# scripted events exactly as listed (reply after "->") -- these encode "check before effect"
-# (state line unchanged) and "yields before returning" (first reply is susp, not ret).
-MODEL_SCRIPTS: dict[str, tuple[str, list[str], bool]] = {
-    "Lock.acquire[free,fast=0]": ("lock", [
-        "new 0->ok", "obs->locked=0 owner=- waiters=0",
-        "acquire 0 1->susp", "obs->locked=0 owner=- waiters=0", "mc 0->env", "step 0->cancelled",
-        "obs->locked=0 owner=- waiters=0",
-        "acquire 0 0->susp", "obs->locked=1 owner=0 waiters=0", "step 0->ret"], True),
-    "Lock.acquire[free,fast=1]": ("lock", [
-        "new 1->ok", "acquire 0 1->susp", "obs->locked=0 owner=- waiters=0", "mc 0->env",
-        "step 0->cancelled", "obs->locked=0 owner=- waiters=0", "acquire 0 0->ret"], False),
-}
+from .c08_scripts import MODEL_SCRIPTS  # noqa: E402  cell -> (model, scripted requests->replies, yields?)
 
 
 def model_leg(res: Result, rows: list[dict[str, Any]]) -> None:
     by_cell = {r["cell"]: r for r in rows if r.get("config") == "asyncio"}
     for name, (model, script, model_yields) in MODEL_SCRIPTS.items():
-        reqs = [x.split("->")[0] for x in script]
-        want = [x.split("->")[1] for x in script]
+        reqs = [x.rsplit("->", 1)[0] for x in script]
+        want = [x.rsplit("->", 1)[1] for x in script]
         got = run_model(model, reqs)
         res.evaluations += 1
         if got != want:
@@ -489,7 +477,7 @@ def replay(ctx: Ctx, case: Any) -> Result:
 
 
 if __name__ == "__main__":
-    sys.exit(check_main("C08", run, replay=replay, models=["lock"], level="exploration",
+    sys.exit(check_main("C08", run, replay=replay, models=["lock", "sem", "limiter", "cond", "event", "mem", "kernel"], level="proof",
                         technique_note="Lean theorems on the primitive and kernel models (cancellation "
                                        "check precedes the effect; a yield precedes the return) + complete "
                                        "enumeration of the operation x state matrix on the real code"))
